@@ -19,6 +19,9 @@ GROUPS += [
       note="level X: every a < 2^18, the windows 2^32 +- 3000 and the top 3000 64-bit values, Carmichael numbers and strong pseudoprimes, against a deterministic Miller-Rabin oracle; not a contract"),
     G("numbers.primes_random.search", "harness/C12/numbers.c", "h_primes_random", NUM, level="N", backend="native", search=300000,
       fn=["priIsPrimeW", "priIsPrime", "priRMTest", "priNextPrimeW"], note="generated 64-bit values against the oracle; NOT proof"),
+    G("numbers.nextprime_window", "harness/C12/numbers.c", "h_nextprime_window", NUM, level="X", backend="native", search=1, ndebug=True, timeout=1800,
+      fn=["priNextPrime", "priIsSieved", "priRMTest"],
+      note="level X: every a < 2^13 x six factor-base sizes x n in {1, 2} against the oracle; not a contract"),
     G("numbers.irred_window", "harness/C12/numbers.c", "h_irred_window", NUM, level="X", backend="native", search=1, ndebug=True, timeout=1800,
       fn=["ppIsIrred"], note="level X: every binary polynomial of degree 1..13 against trial division; not a contract"),
 ]
